@@ -7,6 +7,7 @@ import (
 	"fmt"
 	"os"
 	"strconv"
+	"strings"
 
 	"verif/harness/internal/model"
 	"verif/harness/internal/rep"
@@ -67,7 +68,35 @@ func main() {
 	r := rep.New(id, *tier, *seed, p.rule)
 	x := &runCtx{prop: id, tier: *tier, seed: *seed, replay: *replay, r: r, m: m}
 	x.c = &corr{m: m, r: r}
-	p.run(x)
+	func() {
+		defer func() {
+			rec := recover()
+			if rec == nil {
+				return
+			}
+			hf, ok := rec.(honestFailure)
+			if !ok {
+				panic(rec)
+			}
+			// class of the failure: the message up to its first colon, digits removed
+			class := hf.msg
+			if i := strings.Index(class, ":"); i > 0 {
+				class = class[:i]
+			}
+			class = strings.Map(func(c rune) rune {
+				if c >= '0' && c <= '9' {
+					return -1
+				}
+				if c == ' ' {
+					return '-'
+				}
+				return c
+			}, class)
+			r.Violate(rep.Violation{Kind: "oracle", Check: id + ".honest-steps", Signature: id + ".honest-step-failed:" + class,
+				Input: "an honest step of the harness (valid input, legitimate keys): " + hf.msg, Impl: hf.msg, PropertyFails: true})
+		}()
+		p.run(x)
+	}()
 	x.c.flush()
 	m.Close()
 	if *out != "" {
